@@ -6,8 +6,8 @@ ROOT = os.path.dirname(os.path.dirname(os.path.abspath(__file__)))
 CHECKS = {
  # id: (engine, level, technique, text, note, design_ref)
  "C01": ("E1", "exploration", "property-based testing (proptest, seeded): generated (type expression, value) cases, round-trip oracle",
-         "Generated-input search: hundreds of thousands of (type expression, value) pairs over the whole built-in codec vocabulary (every constructor forced at the root, nesting to depth 3/4, boundary pools) are round-tripped through the real codecs; a violation is shrunk to a minimal replay file. Exploration, not proof: it shows absence of failures on what was generated.",
-         "Trusts the harness bridge `Live` (dispatches every node to the real desert impl of the concrete type) and chrono/bigdecimal value constructors; TZ=UTC pinned.", "5.1"),
+         "Generated-input search: hundreds of thousands of (type expression, value) pairs over the whole built-in codec vocabulary (every constructor forced at the root, nesting to depth 3/4, boundary pools) are round-tripped through the real codecs; a violation is shrunk to a minimal replay file; forty concrete container types are also round-tripped at their real static types (what a codec does for one particular element or key type is only reached that way). Exploration, not proof: it shows absence of failures on what was generated.",
+         "Trusts the harness bridge `Live` (dispatches every node to the real desert impl of the concrete type; containers are instantiated at the bridge's element type, hence the static-type table) and chrono/bigdecimal value constructors; TZ=UTC pinned.", "5.1"),
  "C02": ("E2+E3", "translation_validation", "translation validation of the derive macro: generated declarations compiled with the real macro, differential against an independent interpretation of the declaration (reference encoder / decoder) and against the run-time interpreter",
          "163 generated declarations (all versions of 36 evolution histories, 12 enum families, specials incl. recursion and the 254-step limit) are compiled with the real derive macro; for generated values the derived codec must round-trip, produce byte for byte what the documented field-by-field procedure produces (reference encoder interpreting the declaration), read reference encodings in other legal forms, and agree with the E3 interpreter. Programs are sampled (bounded shapes), values are generated: exploration of the program space, exact comparison per program.",
          "The model interprets the declaration; the compiled code is the macro's output; they share only the declaration. Declarations are bounded (<= 6 initial fields, <= 6 steps compiled; hand-written ones add 130/200-field records, names removed and added again, the 254-step limit). Known finding F24 (an alias of Option under FieldMadeOptional) is re-exhibited by a witness on every run.", "5.2"),
@@ -15,7 +15,7 @@ CHECKS = {
          "Histories of evolution steps are generated from selector specs and built so that every one is legal; each (history, writer version, reader version, value, placement) case is executed through the real AdtSerializer/AdtDeserializer and compared with the documented outcome computed on the logical level (defaults, wrap/unwrap, absent-if-optional, the two specific errors with field names), including that sibling data after the record is intact.",
          "Trusts the run-time interpreter that drives AdtSerializer/AdtDeserializer like the derive expansion (validated against the real expansion by C02's compiled declarations) and DESIGN section 9 for the excluded combination. Known finding F17 (string ids of header names across versions) is recognised by an exact per-case criterion, counted and re-exhibited on every run.", "5.3"),
  "C04": ("E1", "exploration", "property-based differential testing against an independent reference codec (vmodel::refcodec), both directions",
-         "Every generated value is encoded by desert and by an independent reference encoder written from the format description (no shared code) and compared byte for byte; conversely reference encodings in forms the Rust writer never emits (unknown-length sequences) must decode to the denoted value.",
+         "Every generated value is encoded by desert and by an independent reference encoder written from the format description (no shared code) and compared byte for byte; conversely reference encodings in forms the Rust writer never emits (unknown-length sequences) must decode to the denoted value; the same byte comparison at forty real static container types.",
          "Trusts the reference model as the statement of the format (DESIGN section 4).", "5.4"),
  "C05": ("E4+E1+E6", "fault_enumeration", "exhaustive enumeration of short byte strings + random and structure-aware mutation fuzzing (proptest-driven) under a tracking allocator and a crash/hang supervisor, in two build profiles",
          "Totality of decoding is attacked with every byte string of length <= 2 (<= 3 thorough) for a fixed type list, random byte strings, site-aware tamperings of valid encodings and adversarial BinaryInput call sequences; the oracle is Ok-or-Err with no unwind, no process death, no hang and a heap bound measured by a tracking allocator. Finds crashes by search; says nothing about inputs it did not generate beyond the exhaustive sub-space.",
@@ -33,13 +33,13 @@ CHECKS = {
          "Write sequences over a six-string alphabet (repeats frequent) in flat streams, containers, version-0 records and evolved records with removed names in their headers (nested, repeated) are encoded and decoded with the same definition; the stream must be byte-identical to the model's (ids from 1 in first-occurrence order, header names first, repeats exactly zigzag(-id)), and corrupted back-references must be InvalidStringId.",
          "Cross-version deduplication is documented as unsupported and not exercised.", "5.9"),
  "C10": ("E4+E1", "exploration", "exhaustive enumeration of small rooted digraphs + random larger graphs through a safe user codec; byte-exact model, isomorphism oracle with pointer equality, fault injection on reference ids",
-         "All rooted digraphs with <= 4 nodes and out-degree <= 2 (exhaustive) and random graphs up to 60 nodes are encoded through a harness codec that offers node addresses as identities; bytes must match the model, decoding must rebuild an isomorphic graph with sharing restored and distinct nodes distinct, corrupted ids must be InvalidRefId.",
+         "All rooted digraphs with <= 4 nodes and out-degree <= 2 (exhaustive) and random graphs up to 60 nodes are encoded through a harness codec that offers node addresses as identities; bytes must match the model, decoding must rebuild an isomorphic graph with sharing restored and distinct nodes distinct, corrupted ids must be InvalidRefId; flavours: embedded header objects, deduplicated tags, a zero-sized sentinel, edge lists through the library's marker-per-element sequence form, nodes that are evolved records (also several values through one context).",
          "The user codec is the harness's own (safe code, every node alive for the whole call).", "5.10"),
  "C11": ("E4", "exploration", "exhaustive enumeration (thorough: all 2^32 u32 and i32 values) / boundary neighbourhoods + seeded random values against an independent formula",
          "Thorough tier enumerates the complete domain in the release profile; quick tier covers +-4096 around every width boundary, a lattice and random values of every bit length, in both profiles. Oracle: bytes, minimal length, continuation bits, size calculator and read-back through all three inputs.",
          "Reference formula in vmodel::refcodec (LEB128 / zig-zag), independent of desert.", "5.11"),
  "C12": ("E1", "exploration", "property-based testing: generated element lists x source container x target container x size form",
-         "What one container wrote is read as every other container of the family, in the writer's known-length form, the writer's unknown-length form and the reference encoder's unknown-length form.",
+         "What one container wrote is read as every other container of the family, in the writer's known-length form, the writer's unknown-length form and the reference encoder's unknown-length form; several text-keyed maps in one stream at their real static types.",
          "Hash containers are compared as sets/maps; the written order is taken from the very instance that was serialized.", "5.12"),
  "C13": ("E2+E3", "exploration", "property-based testing over generated enum families (compiled with the real macro and interpreted), cross-definition decode and constructor-index splicing",
          "Families E < E' < E'' are generated so that appended variants come last in index order (declaration or sorted); values written by each member are read by each member; constructor indices are spliced; oracles are the index formula, variant/payload identity across extensions and the specific errors (never a panic).",
@@ -48,7 +48,7 @@ CHECKS = {
          "For every compiled declaration with transient parts and for run-time histories ending in FieldMadeTransient(f) (f previously added / made optional / both / neither): twins encode identically, decoding restores declared defaults, encoding never fails, transient constructors give the dedicated error through every sink.",
          "That transient fields contribute no bytes is additionally pinned byte for byte by C02's reference encoding.", "5.14"),
  "C15": ("E5", "exploration", "property-based testing: one instance to six sinks + size calculator; generated primitive-read op sequences on the three inputs (differential)",
-         "Sinks: byte-identical streams or identical errors, exact size. Inputs: op-by-op agreement of SliceInput, OwnedInput and DeserializationContext on generated read sequences with adversarial counts.",
+         "Sinks: byte-identical streams or identical errors, exact size. Inputs: op-by-op agreement of SliceInput, OwnedInput and DeserializationContext on generated read sequences with adversarial counts (also inside a chunk). Entry points at real static types (String, Vec<u8>, &str, Bytes, ...) around the empty value against the reference bytes.",
          "A user-defined BinaryOutput of the harness stands for 'any' custom output.", "5.15"),
  "C16": ("E1", "fault_enumeration", "property-based testing over generated contents x levels x sinks x sources with exhaustive truncation, bit flips and header rewrites under a tracking allocator",
          "Generated contents (empty, incompressible, repetitive, text-like, up to 256 KiB / 8 MiB) are framed at every level through three sinks, checked against an independent inflate, read back through three sources with a suffix; every truncation is Err; damaged frames never panic and never request more than a bounded multiple of what an independent streaming inflate produces (requests above 3 GiB trap).",
@@ -60,7 +60,7 @@ CHECKS = {
          "Histories decide state leaking between calls (string / reference numbering, cached tables, first-use order); the stress half is a probabilistic detector for racy lazy initialisation: interleavings are sampled by the OS, not enumerated.",
          "Schedules are sampled, not enumerated (no control over std::sync::Once inside lazy_static).", "5.18"),
  "C19": ("E7+E1", "exploration", "generated safe-only client programs compiled with rustc against the built rlib (compiler verdict as oracle, control twin per witness) + differential fuzzing of the unsafe decode paths against the reference decoder",
-         "A witness grammar (API path x death mode x referent type) produces programs under #![forbid(unsafe_code)]; each must be rejected by the borrow checker while its control compiles. Inputs reaching the unsafe blocks (arrays, byte vectors) are cross-checked against the reference decoder so that content not taken from the input is caught.",
+         "A witness grammar (API path x death mode x referent type) produces programs under #![forbid(unsafe_code)]; each must be rejected by the borrow checker while its control compiles. Inputs reaching the unsafe blocks (arrays, byte vectors) are cross-checked against the reference decoder so that content not taken from the input is caught. The writing side runs under the same allocator oracle (fresh and freed memory pre-filled two ways): encodes that fail inside evolved records, and a safe serializer whose output grows from call to call.",
          "The space of client programs is explored through the grammar only; F15 (store_ref family) is a recorded known finding matched by API path.", "5.19"),
 }
 
